@@ -18,6 +18,15 @@ func (s *Server) backgroundExpiring(wg *sync.WaitGroup) {
 	s.loopUntilServerStops(bgExpireDelay, func() {
 		s.mu.LockLowPriority()
 		defer s.mu.Unlock()
+		if s.config.followHost() != "" {
+			// A follower does not expire anything on its own clock: every
+			// expiry reaches it as the leader's logged DEL / DELHOOK / DELCHAN.
+			// Expiring locally removes objects whose deadline the leader
+			// moved or cleared (EXPIRE, PERSIST) before it swept them, and
+			// appends commands to the follower's log that the leader's log
+			// does not contain.
+			return
+		}
 		now := time.Now()
 		s.backgroundExpireObjects(now)
 		s.backgroundExpireHooks(now)
